@@ -13,6 +13,7 @@ use crate::gen::{self, Algo, Cfg};
 use crate::harness::{Ctx, Tier};
 use crate::net::LoggedRequest;
 use crate::props::c01::{make_archive, Made};
+use crate::props::preserve::{self, OutOp};
 use crate::refmodel::chunker::ref_chunks;
 use crate::refmodel::format::{decode_archive, RefArchive};
 use crate::scen::{self, CloneOpts};
@@ -51,6 +52,8 @@ pub struct Observed {
     pub output: Option<Vec<u8>>,
     /// every write to the output, in order: (position, bytes)
     pub writes: Vec<(u64, Vec<u8>)>,
+    /// reads and writes on the output in the order they happened (C03's preservation monitor)
+    pub out_ops: Vec<OutOp>,
     /// byte ranges read from the archive, in order: (offset, length)
     pub archive_reads: Vec<(u64, u64)>,
     pub http_log: Vec<LoggedRequest>,
@@ -380,7 +383,11 @@ pub fn execute_with(f: &Fam, presented: Option<&[u8]>, extra: &ExecExtra) -> Obs
             }
             for e in s.events_for("out.bin") {
                 match e.op {
-                    sys::Op::Write if e.ret > 0 => ob.writes.push((e.a as u64, e.data.clone().unwrap_or_default())),
+                    sys::Op::Write if e.ret > 0 => {
+                        ob.writes.push((e.a as u64, e.data.clone().unwrap_or_default()));
+                        ob.out_ops.push(OutOp::Write { pos: e.a as u64, data: e.data.clone().unwrap_or_default() });
+                    }
+                    sys::Op::Read if e.ret >= 0 => ob.out_ops.push(OutOp::Read { pos: e.a as u64, len: e.ret as usize }),
                     sys::Op::Truncate if e.ret == 0 => ob.truncated_to = Some(e.a as u64),
                     _ => {}
                 }
@@ -413,10 +420,15 @@ pub fn execute_with(f: &Fam, presented: Option<&[u8]>, extra: &ExecExtra) -> Obs
         ob.outcome = Some(scen::lib_outcome(&r));
         ob.output = Some(out.contents());
         for op in out.ops() {
-            if let FileOp::Write { pos, data } = op {
-                if !data.is_empty() {
-                    ob.writes.push((pos, data));
+            match op {
+                FileOp::Write { pos, data } => {
+                    if !data.is_empty() {
+                        ob.out_ops.push(OutOp::Write { pos, data: data.clone() });
+                        ob.writes.push((pos, data));
+                    }
                 }
+                FileOp::Read { pos, len } => ob.out_ops.push(OutOp::Read { pos, len }),
+                _ => {}
             }
         }
         if let Some(af) = archive_file {
@@ -630,6 +642,50 @@ pub fn check_writes(ctx: &mut Ctx, f: &Fam, ob: &Observed) {
     }
 }
 
+/// C03's during-the-run clause on the real clone: no chunk that the scan of the prior output
+/// finds and the source needs is destroyed before it has been copied to all its destinations
+/// or read into memory (props/preserve.rs).
+pub fn check_preservation(ctx: &mut Ctx, f: &Fam, ob: &Observed) {
+    let (true, Some(prior)) = (f.seed_output, f.prior.as_ref()) else { return };
+    if truncated_twins(&f.ra) {
+        simkit::count("hash-collision-exempt");
+        return;
+    }
+    let (found, collision) = scan(&f.ra, &f.cfg, &f.made.source, prior);
+    if collision {
+        simkit::count("hash-collision-exempt");
+        return;
+    }
+    let mut dests: BTreeMap<usize, (usize, Vec<u64>)> = BTreeMap::new();
+    for (off, idx, size) in source_layout(&f.ra) {
+        dests.entry(idx).or_insert((size, Vec::new())).1.push(off);
+    }
+    let mut table = Vec::new();
+    let mut n_locs = 0usize;
+    for (idx, locs) in &found {
+        let Some((size, d)) = dests.get(idx) else { continue };
+        if *size == 0 {
+            continue;
+        }
+        let first = d[0] as usize;
+        n_locs += locs.len() + d.len();
+        table.push(preserve::Reusable { id: *idx, content: f.made.source[first..first + size].to_vec(), locs: locs.clone(), dests: d.clone() });
+    }
+    if table.is_empty() {
+        return;
+    }
+    if n_locs > 200_000 {
+        simkit::count("preservation-monitor-skipped:too-many-locations");
+        return;
+    }
+    let (v, n) = preserve::monitor(prior, &ob.out_ops, &table, false);
+    simkit::count_n("preservation-checks", n);
+    simkit::count("preservation-monitored-clones");
+    if let Some(v) = v {
+        ctx.fail("reusable-chunk-destroyed", format!("{}; {}", v.text, f.desc));
+    }
+}
+
 pub fn nontrivial(f: &Fam, ob: &Observed, which: Which) -> (bool, u64) {
     let n = f.ra.dict.rebuild_order.len() as u64;
     let shape = n ^ ((f.seeds.len() as u64) << 20) ^ ((f.level2 as u64) << 30) ^ ((f.http as u64) << 31) ^ ((f.seed_output as u64) << 32) ^ ((f.blockdev as u64) << 33) ^ ((ob.writes.len() as u64) << 40);
@@ -667,7 +723,8 @@ pub fn run_which(ctx: &mut Ctx, which: Which) {
         }
     }
     match which {
-        Which::C02 | Which::C03 => {}
+        Which::C02 => {}
+        Which::C03 => check_preservation(ctx, &f, &ob),
         Which::C06 => check_fetch(ctx, &f, &ob),
         Which::C13 => check_writes(ctx, &f, &ob),
         Which::C16 => {}
